@@ -41,5 +41,6 @@ def run(project, rep):
     rep.run(T.t_r2, project, rep)
     rep.run(T.t_r3, project, rep)
     rep.run(T.t_r4, project, rep)
+    rep.run(T.t_r4b_guards_constant, project, rep)
     rep.run(T.t_r5, project, rep)
     rep.run(T.t_r7, project, rep)
